@@ -314,7 +314,8 @@ def unit_keys(ctx):
         run_genmi(ctx, ln, base, rng.randbytes(3 * ln), "genmi:random:" + tag)
         # candidates of small degree: x + 1 is rejected (degree of the minimal polynomial), x^3 + x + 1 / one word / half
         # the words with the top ones zero are ordinary field elements whose powers fill all words
-        for small in (b"\x0b", rng.randbytes(8), rng.randbytes(ln // 2), rng.randbytes(ln - 8)):
+        for small in (b"\x0b", b"\x09", b"\x21", b"\x05", b"\x11", bytes([rng.randrange(4, 256)]), b"\x01\x01", rng.randbytes(8),
+                      rng.randbytes(ln // 2), rng.randbytes(ln - 8)):
             run_genmi(ctx, ln, base, (small + bytes(ln))[:ln] + rng.randbytes(2 * ln), "genmi:short-candidate:" + tag)
         seed = (rng.randbytes(32), rng.randbytes(32))
         bt = brng_tape(lib, seed[0], seed[1], ln)
